@@ -262,6 +262,9 @@ func Yield(site string) {
 	x.nontriv = true
 	switch act {
 	case 1:
+		if x.Trace {
+			x.Events = append(x.Events, fmt.Sprintf("       %12.6f resched at %s (yield #%d)", time.Since(x.start).Seconds(), site, idx))
+		}
 		runtime.Gosched()
 	case 2:
 		x.stallCount++
